@@ -145,6 +145,17 @@ def run(ctx):
         elif not np.allclose(im_a["rf"], im_b["rf"], rtol=1e-7, atol=1e-10) or (kind_ == "single" and not np.allclose(im_a["rfd"], im_b["rfd"], rtol=1e-7, atol=1e-10)):
             bad("recovery depends on whether a level came from the iterative solver or from the direct-solve fallback (a flagged iterate was kept)", inp,
                 dict(flux_final=[float(im_a["rf"][-1]), float(im_b["rf"][-1])], max_diff=float(np.abs(im_a["rf"] - im_b["rf"]).max())))
+    # ---------------- several wells simulated at the same time in a thread pool (same node count, own tables / pressures / grids): each
+    # gets the recoveries it gets when simulated alone
+    tbc = rescorr.synth_table("ideal", 120)
+    pc = np.asarray(tbc["pressure"], float)
+    conc = [dict(kind="single", table=tbc, pi=float(pc[-2 - 5 * j_]), pf=float(pc[3 + 9 * j_]), nx=30, times=np.linspace(0, np.sqrt(0.8 + j_), 90 + 15 * j_) ** 2) for j_ in range(4)]
+    ser = [rescorr.run_impl(c_) for c_ in conc]
+
+    def rep_c(c_, obs):
+        bad("the recoveries of a reservoir simulated while others are simulated in other threads (own objects, same node count) differ from those of the same reservoir simulated alone",
+            dict(nx=c_["nx"], p_initial=c_["pi"], p_frac=c_["pf"], nt=len(c_["times"]), simulated="concurrently with 3 other reservoirs, one thread each"), obs)
+    ev += rescorr.threaded_equals_serial(conc, ser, rep_c, rounds=2)
     # ---------------- time grids held as integers (day counts) with a frac-face pressure that is not a whole number: the recoveries
     # are those of the same grid held as floats, and the in-place recovery stays under its ceiling for THAT frac-face pressure
     tbi = rescorr.synth_table("ideal", 300)
